@@ -5,7 +5,8 @@
 # at scaled clock frequencies (windows of a few to tens of cycles; one ping configuration at 25 MHz keeps the real
 # 1..4-cycle burst window and crosses its multi-million-cycle repeat window with C-side holds).  One action = one
 # envelope segment (signalling present for d cycles / absent for g cycles), d and g from menus that straddle every window
-# edge by -2..+2 cycles, plus 1..2-cycle glitches; BFS over all segment sequences up to a depth of 3-5 bursts.
+# edge by -2..+2 cycles, plus 1..2-cycle glitches, plus over-long signalling whose excess over one / two window lengths
+# lies again inside the window, just beyond it, and far beyond; BFS over all segment sequences up to a depth of 3-5 bursts.
 #
 # Oracle (from the statement; windows taken from the pattern object's documented t_min/t_max, exact rational arithmetic):
 #   a signal seen high at d consecutive clock edges lasted between d-1 and d+1 clock periods, so a burst of d cycles is
@@ -108,6 +109,18 @@ class DetectorSpec(Spec):
             D = {a - 1, a, mid, b, b + 1}
         else:
             D = {1, a - 2, a - 1, a, a + 1, mid, b - 1, b, b + 1, b + 2}
+        # over-long signalling of every length class: excess over the window again inside the window (after one and after
+        # two window lengths - what a detector that re-arms on the level instead of the edge would take for a burst),
+        # just beyond that, and far beyond
+        if menu == "few":
+            O = {b + 1 + a, 2 * b + 1}
+        elif menu == "edges":
+            O = {b + 1 + a, b + 1 + mid, 2 * b + 1, 2 * (b + 1) + mid, 6 * b + 5}
+        else:
+            O = {b + a, b + 1 + a, b + 1 + mid, 2 * b + 1, 2 * b + 2, 2 * (b + 1) + a, 2 * (b + 1) + mid, 3 * b + 2,
+                 3 * (b + 1) + mid, 6 * b + 5}
+        self.over = min(O)
+        D |= O
         self.D = sorted(d for d in D if d >= 1)
         if self.periodic:
             midp = (A + B) // 2
@@ -119,12 +132,14 @@ class DetectorSpec(Spec):
                 P = {A - 2, A - 1, A, A + 1, midp, B - 1, B, B + 1, B + 2}
             self.P = sorted(P)
             self.G = [1] if menu != "wide" else [1, 2]           # glitch gaps
+            # gaps that do not depend on the length of the preceding burst (a mid-window period after a mid-window burst...)
+            self.G += [g for g in ({midp - mid} if menu != "wide" else {A - a, midp - mid, B - b}) if g >= 1]
             self.caplo = B + LMAX + 3
         else:
             self.P = []
             self.G = [1, 3, LMAX + 2] if menu != "wide" else [1, 2, 3, LMAX + 2, b + 3]
             self.caplo = max(self.G) + 1
-        self.caphi = b + LMAX + 3
+        self.caphi = b + LMAX + 3          # (only for the canonical form; anything longer is equally out of the window)
 
     def build(self):
         from luna.gateware.usb.usb3.physical.lfps import LFPSDetector
@@ -236,6 +251,7 @@ class DetectorSpec(Spec):
         if level == 1:
             d = segs[-1]
             self.cover["burst_ok" if self.okB(d) else ("burst_short" if d < self.a else "burst_long")] += 1
+            if d >= self.over: self.cover["burst_overlong_tail_in_window"] += 1
         elif self.periodic and len(segs) >= 3:
             p = segs[-1] + segs[-2]
             self.cover["period_ok" if self.okP(p) else ("period_short" if p < self.A else "period_long")] += 1
@@ -265,7 +281,7 @@ class DetectorSpec(Spec):
         return out[-9:]
 
     def goals(self):
-        g = ["detect", "burst_ok", "burst_short", "burst_long"]
+        g = ["detect", "burst_ok", "burst_short", "burst_long", "burst_overlong_tail_in_window"]
         if self.periodic: g += ["period_ok", "period_short", "period_long"]
         if self.a == 1: g.remove("burst_short")            # no burst can be shorter than one cycle
         return g
